@@ -364,9 +364,11 @@ def execute(plan, keep_log=False):
                 w.probe("first-chunk-inside-magic")
             if deliv["tail"] == 1:
                 w.probe("one-byte-delivery")
-            ocls = "ok" if outcome == "ok" and got == want else ("wrong" if outcome == "ok" else "raise:" + outcome)
+            # the exception *class* is not part of the event log or the state: on garbage a decoder may fail with
+            # MemoryError or ValueError depending on how much address space happens to be free
+            ocls = "ok" if outcome == "ok" and got == want else ("wrong" if outcome == "ok" else "raise")
             w.state(c, container, naming, first_chunk_bucket(deliv), ocls)
-            w.log("read", naming, deliv["kind"], "->", outcome, "n=%d" % len(got), stage)
+            w.log("read", naming, deliv["kind"], "->", "ok" if outcome == "ok" else "raise", "n=%d" % len(got), stage if outcome == "ok" or not stage.startswith("after") else "after")
             if outcome == "ok" and got == want:
                 if cls != want_cls:
                     add(_viol("C11.reader-class", "%s source read with %s, expected %s" % (container, cls, want_cls)))
@@ -392,7 +394,7 @@ def execute(plan, keep_log=False):
                         needed = f
                         break
                 info["enlarged_ok_at"] = needed
-                info["short_peek"] = bool(info["whole_ok"] and needed is not None and outcome in ("RecordAdapterNotFound", "OSError", "ValueError", "UnicodeDecodeError", "BadGzipFile", "EOFError", "KeyError", "TypeError", "Exception"))
+                info["short_peek"] = bool(info["whole_ok"] and needed is not None)
             if outcome == "ok":
                 j = next((i for i in range(min(len(got), len(want))) if got[i] != want[i]), None)
                 detail = "%s via %s (%s delivery): %d records yielded, %d written%s" % (container + "/" + c, naming, deliv["kind"], len(got), len(want), "" if j is None else "; record %d differs: %s vs %s" % (j, short(got[j], 120), short(want[j], 120)))
@@ -411,7 +413,7 @@ def execute(plan, keep_log=False):
                 gcodec = g["codec"]
             got, outcome, cls, stage = do_read(w, plan, naming, {"sizes": [64], "tail": "whole", "kind": "19+"}, gdata, "stream", gcodec, "g%d" % gi)
             evals += 1
-            w.log("garbage", g["kind"], naming, "->", outcome, len(got))
+            w.log("garbage", g["kind"], naming, "->", "ok" if outcome == "ok" else "raise", len(got))
             w.state("garbage", g["kind"], naming, "ok" if outcome == "ok" else "raise")
             has_magic = refcodec.MAGIC in gdata
             if got:
